@@ -34,7 +34,7 @@ logging.getLogger("aiohttp.server").disabled = True
 logging.getLogger("aiohttp.access").disabled = True
 logging.getLogger("aiohttp.web").disabled = True
 
-OK_KINDS = ("ret", "yield", "sleep", "read_body", "ignore_body", "stream", "stream_cl", "payload", "aiter")
+OK_KINDS = ("ret", "yield", "sleep", "read_body", "read_small", "ignore_body", "stream", "stream_cl", "payload", "aiter")
 STATUS = {"prepare_fails": {500}, "http_exc": {403}, "exc": {500}, "timeout": {504}, "non_response": {500}, "partial_raise": {200}, "partial_timeout": {200},
           "partial_http_exc": {200}, "prepared_raise": {200}, "prepared_timeout": {200}, "prepared_http_exc": {200}}
 FAILS_AFTER_HEAD = ("partial_raise", "partial_timeout", "partial_http_exc", "prepared_raise", "prepared_timeout", "prepared_http_exc")
@@ -181,6 +181,15 @@ def execute(case: dict) -> dict:
             elif kind == "read_body":
                 data = await request.read()
                 return web.Response(text=f"r{i}:{len(data)}", headers=hdr)
+            elif kind == "read_small":
+                # the body in small pieces (a line-oriented or record-oriented consumer): many reads, each below the low-water mark
+                total = 0
+                while True:
+                    piece = await request.content.read(16)
+                    if not piece:
+                        break
+                    total += len(piece)
+                return web.Response(text=f"r{i}:{total}", headers=hdr)
             elif kind in ("stream", "stream_cl", "partial_raise", "partial_timeout", "partial_http_exc", "prepared_raise", "prepared_timeout", "prepared_http_exc"):
                 resp = web.StreamResponse(status=r.get("status", 200), headers=hdr)
                 if kind == "stream_cl":
@@ -254,6 +263,12 @@ def execute(case: dict) -> dict:
             if stats.get("runaway"):
                 raise Violation("request-handled-repeatedly", f"the handler was called {stats['runaway']} times for {len(reqs)} request(s) on the wire (last ids {handled[-5:]}): a request is being replayed")
             q = getattr(proto, "_messages", None)
+            for _m, pl in list(q or ()):
+                # a body nobody reads yet (its request waits in the queue) stays within its reader's flow-control window,
+                # whatever the handler of an earlier request on the connection is reading meanwhile
+                hw, sz = getattr(pl, "_high_water", None), getattr(pl, "_size", 0)
+                if hw and sz > 2 * hw + 2 * 65536:
+                    raise Violation("unread-body-over-high-water", f"the body of a queued request holds {sz} decoded bytes unread (high-water mark {hw}): reading was resumed on its behalf by another request's reader")
             if q is not None and cap:
                 stats["max_queue"] = max(stats["max_queue"], len(q))
                 if len(q) > cap:
@@ -391,7 +406,7 @@ def execute(case: dict) -> dict:
             exp = STATUS.get(kind, {200})
             if kind in ("stream", "stream_cl", "payload", "aiter"):
                 exp = {reqs[who].get("status", 200)}
-            if kind == "read_body" and reqs[who].get("body") == "cl_deflate" and reqs[who].get("n", 0) > 1024 ** 2:
+            if kind == "read_body" and reqs[who].get("body") == "cl_deflate" and reqs[who].get("n", 0) > 1024 ** 2:  # (read_small reads the stream itself: no size limit applies)
                 exp = {413}  # client_max_size (1 MiB) applies to the decoded size
             if r.status not in exp:
                 raise Violation(f"unexpected-status/{kind}", f"request {who} ({kind}) answered with {r.status}, expected {sorted(exp)}")
@@ -402,7 +417,7 @@ def execute(case: dict) -> dict:
                     raise Violation("head-response-with-body", f"request {who} (HEAD, {kind}): {len(r.body)} body bytes follow the header section")
                 if want is not None and not is_head and r.body != want.encode():
                     raise Violation("response-body", f"request {who} ({kind}): body {r.body[:40]!r}, expected {want!r}")
-                if kind == "read_body" and not is_head and r.body != f"r{who}:{reqs[who].get('n', 0) if reqs[who].get('body', 'none') != 'none' else 0}".encode():
+                if kind in ("read_body", "read_small") and not is_head and r.body != f"r{who}:{reqs[who].get('n', 0) if reqs[who].get('body', 'none') != 'none' else 0}".encode():
                     raise Violation("request-body-length", f"request {who}: handler saw {r.body!r}")
         # malformed input is the client's error: no 5xx unless a handler of this pipeline fails by itself
         if not any(r.get("h") in ("exc", "non_response", "timeout", "prepare_fails") + FAILS_AFTER_HEAD for r in reqs):
@@ -472,7 +487,7 @@ def body(rec: Rec, case: dict) -> None:
 
 
 # ------------------------------------------------------------------ generators
-HANDLERS = ["ret", "ret", "ret", "yield", "sleep", "http_exc", "exc", "timeout", "non_response", "read_body", "ignore_body", "stream", "stream_cl",
+HANDLERS = ["read_small", "ret", "ret", "ret", "yield", "sleep", "http_exc", "exc", "timeout", "non_response", "read_body", "ignore_body", "stream", "stream_cl",
             "partial_raise", "partial_timeout", "payload", "aiter", "partial_http_exc", "prepared_raise", "prepared_timeout", "prepared_http_exc", "prepare_fails"]
 
 
